@@ -32,6 +32,12 @@ META["C16"] = {
     "design_ref": "DESIGN.md §7 C16",
 }
 
+META["C13"] = {
+    "text": "Bounded symbolic model checking of the real applyTransactionBatch for single conversions over the asset matrix: for EVERY height >= the tx activation, amount, balance, rate and average value the solver shows executed <=> admit(height, src, dst, rates, averages) written from the specification table (one-way pFCT, small caps and PEG, zero rates, unavailable averages under PIP-10, overflow), the documented reject code, and that non-executed conversions leave every table unchanged.",
+    "note": "quick: 3x62 + 62x3 pairs, thorough: full 62x62; spec constants copied into the harness; the from-2.0 PEG-destination rule is asserted in the holding harness (C05/C06 family)",
+    "design_ref": "DESIGN.md §7 C13",
+}
+
 NOT_APPLICABLE = {}
 for i in range(1, 21):
     p = "C%02d" % i
